@@ -687,3 +687,26 @@ M('C09', 'fit-circle-loose-ftol', 'src/geom2/circle2.rs', "    let (result, repo
 M('C11', 'arc-set-angle-in-place', 'src/geom2/circle2.rs', "    pub fn length(&self) -> f64 {\n        self.circle.ball.radius * self.angle.abs()\n    }", "    pub fn length(&self) -> f64 {\n        self.circle.ball.radius * self.angle.abs()\n    }\n\n    pub fn set_sweep(&mut self, angle: f64) {\n        self.angle = angle;\n    }", 'immutable')
 M('C10', 'open-gap-max-instead-of-min', 'src/airfoil/edges.rs', "                .min(end_sp.scalar_projection(&end_cap.b));", "                .max(end_sp.scalar_projection(&end_cap.b));", 'find_edge:step')
 M('C18', 'angle-interval-contains-no-wrap-branch', 'src/common/angles.rs', "            angle + 2.0 * PI <= self.start + self.angle + ANGLE_TOL", "            angle <= self.start + self.angle - 2.0 * PI", 'AngleInterval::contains')
+# ---------------------------------------------------------------- round-5 obligations (mutants spelled differently from the seeds that prompted them)
+M('C18', 'signed-angle-abs-cross', 'src/geom2/angles2.rs', "    (v1.x * v2.y - v1.y * v2.x).atan2(v1.x * v2.x + v1.y * v2.y)", "    (v1.x * v2.y - v1.y * v2.x).abs().atan2(v1.x * v2.x + v1.y * v2.y)", 'signed_angle:formula')
+M('C17', 'sort-and-dedup-loose-constant', 'src/func1/series1.rs', "    xs.dedup_by(|a, b| (*a - *b).abs() < 1e-10);", "    xs.dedup_by(|a, b| (*a - *b).abs() < 1e-3);", 'sort_and_dedup:predicate')
+M('C17', 'series1-f-clamps', 'src/func1/series1.rs', "    fn f(&self, x: f64) -> f64 {\n        self.interpolate(x)\n    }", "    fn f(&self, x: f64) -> f64 {\n        self.interpolate(x.clamp(self.x_min(), self.x_max()))\n    }", 'Series1::f')
+M('C09', 'try-from-sorts', 'src/common/discrete_domain.rs', "    fn try_from(values: Vec<f64>) -> Result<Self> {\n", "    fn try_from(values: Vec<f64>) -> Result<Self> {\n        let mut values = values;\n        values.retain(|v| v.is_finite());\n", 'try_from:stores-input')
+M('C12', 'get-patches-empty-shortcut', 'src/geom3/mesh.rs', "        patches::compute_patch_indices(self)\n", "        if self.faces().len() == 1 {\n            return vec![vec![0]];\n        }\n        patches::compute_patch_indices(self)\n", 'get_patches:delegates')
+M('C15', 'hull-two-point-shortcut', 'src/geom2/hull.rs', "    convex_hull_idx(points)\n}", "    if points.len() == 2 {\n        return vec![1, 0];\n    }\n    convex_hull_idx(points)\n}", 'convex_hull_2d:delegates')
+M('C13', 'mesh-new-merges-duplicates', 'src/geom3/mesh.rs', "        let shape = TriMesh::new(vertices, triangles).expect(\"Failed to create TriMesh\");\n        Self {\n            shape,\n            is_solid,\n            uv: None,", "        let shape = TriMesh::with_flags(vertices, triangles, TriMeshFlags::MERGE_DUPLICATE_VERTICES).expect(\"Failed to create TriMesh\");\n        Self {\n            shape,\n            is_solid,\n            uv: None,", 'plain-trimesh')
+M('C07', 'rcparams3-set-zeroes-tiny', 'src/geom3/align3.rs', "        self.x = *x;\n        self.compute();", "        self.x = *x;\n        if self.x[4].abs() < 1e-12 {\n            self.x[4] = 0.0;\n        }\n        self.compute();", 'set:x-only-store')
+M('C08', 'from-euler-negated-pitch', 'src/geom3/align3/rotations.rs', "        let y = UnitQuaternion::from_euler_angles(0.0, ry, 0.0);", "        let y = UnitQuaternion::from_euler_angles(0.0, ry % std::f64::consts::PI, 0.0);", 'from_euler:elementary')
+M('C10', 'advance-first-jump-half', 'src/airfoil/camber.rs', "    let mut frac = 0.25;", "    let mut frac = 0.5;", 'first-jump-within-end-test')
+M('C10', 'neutral-advance-smaller-first-jump', 'src/airfoil/camber.rs', "    let mut frac = 0.25;", "    let mut frac = 0.25_f64;", '', kind='neutral')
+M('C10', 'caliper-skip-first-leg', 'src/airfoil.rs', "        let i2 = hull_indices[(i + 1) % hull_indices.len()];", "        let i2 = hull_indices[(i + 1).min(hull_indices.len() - 1)];", 'every-hull-leg')
+M('C11', 'interval-picks-by-own-centre', 'src/geom2/circle2.rs', "        if i0.contains(self.angle_of_point(&other.center)) {\n            Some(i0)", "        if i1.contains(self.angle_of_point(&other.center)) {\n            Some(i0)", 'which-arc')
+M('C20', 'face-angles-nonstrict', 'src/geom3/mesh/conformal.rs', "        let face_angles = if a > b + c {", "        let face_angles = if a >= b + c {", 'degenerate-test')
+M('C20', 'uv-triangle-rejects-far', 'src/geom3/mesh/uv_mapping.rs', "        let (_, (t_id, loc)) = result;\n", "        let (prj, (t_id, loc)) = result;\n        if !prj.is_inside && (prj.point - point).norm() > 1e-9 {\n            return None;\n        }\n", 'none-only-degenerate')
+M('C14', 'project-max-dist-halved', 'src/geom3/mesh/queries.rs', ".project_local_point_and_get_location_with_max_dist(point, self.is_solid, max_dist)", ".project_local_point_and_get_location_with_max_dist(point, self.is_solid, max_dist * 0.5)", 'project_with_max_dist')
+M('C16', 'surf-closest-flips-normal', 'src/geom3/mesh/queries.rs', "        let normal = triangle.normal().unwrap(); // When could this fail? On a degenerate tri?", "        let normal = -triangle.normal().unwrap();", 'surf_closest_to')
+M('C04', 'length-along-truncates', 'src/geom2/curve2.rs', "        l[self.index] + (l[self.index + 1] - l[self.index]) * self.fraction\n", "        l[self.index] + (l[self.index + 1] - l[self.index]) * self.fraction.min(0.999999)\n", 'length_along')
+M('C03', 'plane-inverted-keeps-d', 'src/geom3/plane3.rs', "        Self::new(-self.normal, -self.d)", "        Self::new(-self.normal, self.d)", 'inverted_normal')
+M('C02', 'curve3-lengths-from-zero-index', 'src/geom3/curve3.rs', "            lengths.push(lengths[i] + d);", "            lengths.push(lengths[0] + d);", 'from_points:lengths')
+M('C14', 'neutral-pass-list-for-each', 'src/geom3/mesh/filtering.rs', "                for i in pass_list {\n                    self.indices.insert(i);\n                }", "                pass_list.into_iter().for_each(|i| {\n                    self.indices.insert(i);\n                });", '', kind='neutral')
+M('C14', 'pass-list-for-each-removes', 'src/geom3/mesh/filtering.rs', "                for i in pass_list {\n                    self.indices.insert(i);\n                }", "                pass_list.into_iter().for_each(|i| {\n                    self.indices.remove(&i);\n                });", 'mutate_pass_list')
